@@ -32,6 +32,44 @@ func c07(r *core.Report) {
 		}
 	}
 
+	// ---- C07-EXPIRE-ON-SEND: a sender notices a dead peer (restart, silence) only because getOrInit
+	// retires the current session through expireSessions before it hands one out; expireSessions must
+	// keep its keep-alive clause (lastReceived against KeepAliveTimeout), not just the hard expiry
+	r.Rule("C07-EXPIRE-ON-SEND", "getOrInit runs expireSessions before it returns a session; expireSessions retires the current session on keep-alive silence", 2)
+	if exp := needFn(r, "p/p2pke", "Channel.expireSessions"); exp != nil {
+		isExp := func(in ssa.Instruction) bool {
+			ci, ok := in.(ssa.CallInstruction)
+			return ok && core.IsCallToFn(ci.Common(), exp)
+		}
+		r.Check(mustPass(c.getOrInit, isExp), "C07-EXPIRE-ON-SEND", core.FnName(c.getOrInit)+" expires first", p.Pos(c.getOrInit.Pos()), "every path through getOrInit calls expireSessions before returning", "getOrInit can return a session without having called expireSessions: a current session whose peer restarted or went silent is used for every Send until its hard expiry, and nothing reaches the new peer")
+		// the keep-alive clause: a condition in expireSessions reads lastReceived and KeepAliveTimeout and
+		// guards the store that clears the current slot
+		kaF := p.Field("p/p2pke", "ChannelConfig", "KeepAliveTimeout")
+		if kaF == nil {
+			kaF = p.Field("p/p2pke", "ChannelParams", "KeepAliveTimeout")
+		}
+		readsLR, readsKA := false, false
+		for _, in := range core.AllInstrs(exp) {
+			iff, ok := in.(*ssa.If)
+			if !ok {
+				continue
+			}
+			core.BackSlice(iff.Cond, func(x ssa.Value) bool {
+				if f, _ := core.FieldRead(x); f != nil {
+					if core.SameField(f, c.lastReceived) {
+						readsLR = true
+					}
+					if f.Name() == "KeepAliveTimeout" {
+						readsKA = true
+					}
+				}
+				return true
+			})
+		}
+		_ = kaF
+		r.Check(readsLR && readsKA, "C07-EXPIRE-ON-SEND", core.FnName(exp)+" keep-alive clause", p.Pos(exp.Pos()), "a condition in expireSessions compares the time since lastReceived with KeepAliveTimeout", "expireSessions no longer looks at lastReceived / KeepAliveTimeout: a silent peer is noticed only at the hard expiry")
+	}
+
 	// ---- C07-KEEPALIVE
 	r.Rule("C07-KEEPALIVE", "data from the current session refreshes lastReceived before it is handed out", 2)
 	{
